@@ -390,6 +390,14 @@ class P:
             return ("array", items)
         if v == "if":
             return self.if_expr()
+        if v == "|":
+            # C16: closure `|a, b| body` (only recognised, never translated as a value)
+            self.eat()
+            params = []
+            while not self.accept("|"):
+                params.append(self.pat())
+                self.accept(",")
+            return ("closure", params, self.expr())
         if v == "{":
             return self.block()
         if v == "unsafe":
@@ -410,6 +418,19 @@ class P:
                 self.eat("!")
                 args = self.macro_args()
                 return ("macro", name, args)
+            if (not no_struct and self.peek() == "{" and name[:1].isupper() and "::" not in name
+                    and self.kind(1) == "ident" and self.peek(2) in (",", ":", "}")):
+                # C16: struct literal `Name { a, b: e }`
+                self.eat("{")
+                fields = []
+                while not self.accept("}"):
+                    f = self.eat()
+                    if self.accept(":"):
+                        fields.append((f, self.expr()))
+                    else:
+                        fields.append((f, ("path", f, None)))
+                    self.accept(",")
+                return ("structlit", name, fields)
             return ("path", name, targs)
         raise Unsupported(f"expression form near {v!r}")
 
